@@ -254,23 +254,28 @@ Definition model_pixel (m : mgrid) (q : Z) (h : how) (c : coord) (j k : Z) : opt
   end.
 
 (* ---- requests on a cache that already holds tiles (TileManager._load_tile_coords + the re-check under the lock).
-   cached: the coordinates is_cached answers True for when the request starts.  Only the missing tiles are handed
-   to create_tiles; every creation step looks again, under the lock of the main tile, whether ALL tiles of the meta
-   tile are cached ("if not all(self.is_cached(t) for t in meta_tile.tiles if t is not None)") and then only loads.
+   cached: the coordinates is_cached answers True for when the request looks for its tiles; only the missing tiles
+   are handed to create_tiles.  locked: what is_cached answers later, under the lock of the main tile of a creation
+   step (another request may have stored tiles in between; sequentially locked = cached): the step looks again
+   whether ALL tiles of the meta tile are cached
+   ("if not all(self.is_cached(t) for t in meta_tile.tiles if t is not None)") and then only loads them.
    (Requests without duplicate coordinates: the tiles stored by one step are not among those of a later step.) *)
 Definition all_cached (cached : list coord) (tiles : list coord) : bool :=
   forallb (fun c => coord_mem c cached) tiles.
 
-Definition plan_with_cache (m : mgrid) (has_meta minimize bulk : bool) (cached tiles : list coord) : option (list step) :=
+Definition plan_with_caches (m : mgrid) (has_meta minimize bulk : bool) (cached locked tiles : list coord) : option (list step) :=
   let unc := filter (fun c => negb (coord_mem c cached)) tiles in
   match unc with
   | [] => Some []
   | _ =>
     match create_plan m has_meta minimize bulk unc with
     | None => None
-    | Some plan => Some (filter (fun st => negb (all_cached cached (snd st))) plan)
+    | Some plan => Some (filter (fun st => negb (all_cached locked (snd st))) plan)
     end
   end.
+
+Definition plan_with_cache (m : mgrid) (has_meta minimize bulk : bool) (cached tiles : list coord) : option (list step) :=
+  plan_with_caches m has_meta minimize bulk cached cached tiles.
 
 (* ---- colours: a second position-only picture whose four bands all carry information (alpha between 1 and 254
    when the cache is transparent) and what TileSplitter.get_tile stores for a pixel:
